@@ -10,6 +10,7 @@ import multiprocessing as mp
 from amc import core, isas
 from amc.core import Failure, Report, exc_sig
 from amc.checks import c02
+from amc.gen import specwords
 
 
 def global_objects(cpu):
@@ -201,7 +202,73 @@ def mode_unit(args):
         restore(cpu, objs, G0)
         if r0 is not None and r1 is not None and r0 != r1:
             sensitive.append(h)
-    blocks = [[h] for h in alpha] + [[h] for h in sensitive if h not in alpha]
+    # targeted probes ("force the collision"): a transition that changes the annotation of ONE global object is only
+    # observable through a consumer that reads that very object. For every object some single transition changes,
+    # the encodings of the sf-sensitive specifications are searched for one whose result depends on that object alone.
+    targeted = []
+    if sensitive:
+        from amoco.cas.mapper import mapper as _mapper
+        changed_objs = {}
+        for h, mn, fp in cands:
+            restore(cpu, objs, G0)
+            i = decode(cpu, mode, h)
+            if i is None:
+                continue
+            try:
+                _mapper([i])
+            except Exception:
+                pass
+            G2 = snapshot(cpu, objs)
+            for idx, (a, b) in enumerate(zip(G0[0], G2[0])):
+                if a != b and idx not in changed_objs:
+                    changed_objs[idx] = b
+        restore(cpu, objs, G0)
+        sens_specs = []
+        for h in sensitive:
+            i = decode(cpu, mode, h)
+            if i is not None and i.spec not in sens_specs:
+                sens_specs.append(i.spec)
+        restore(cpu, objs, G0)
+        d = cpu.disassemble
+        pool, seenp = [], set()
+        for sp in sens_specs:
+            k = 0
+            for b in specwords.cases_for_spec(isa, sp, d.endian(), d.maxlen, "quick"):
+                if not b:
+                    continue
+                i = decode(cpu, mode, b.hex())
+                if i is None or i.spec is not sp:
+                    continue
+                hb = bytes(i.bytes).hex()
+                if hb in seenp:
+                    continue
+                seenp.add(hb)
+                pool.append((hb, str(i.mnemonic)))
+                k += 1
+                if k >= (160 if full else 80):
+                    break
+        restore(cpu, objs, G0)
+        base_pool = {}
+        for idx in sorted(changed_objs)[:(16 if full else 8)]:
+            Gx = (tuple(changed_objs[idx] if j == idx else x for j, x in enumerate(G0[0])),) + G0[1:]
+            found = 0
+            for hb, mn in pool:
+                if hb in alpha or hb in sensitive or hb in targeted:
+                    continue
+                if hb not in base_pool:
+                    restore(cpu, objs, G0)
+                    base_pool[hb] = P.evaluate(P.build([hb]))
+                restore(cpu, objs, Gx)
+                r1 = P.evaluate(P.build([hb]))
+                if base_pool[hb] is not None and r1 is not None and r1 != base_pool[hb]:
+                    targeted.append(hb)
+                    mn_of.setdefault(hb, mn)
+                    found += 1
+                    if found >= 2:
+                        break
+        restore(cpu, objs, G0)
+    stats["targeted_probes"] = [mn_of.get(h, "?") for h in targeted]
+    blocks = [[h] for h in alpha] + [[h] for h in sensitive if h not in alpha] + [[h] for h in targeted]
     blocks += ([[a, b] for a in alpha[:8] for b in alpha[:8]] if full else [[a, b] for a in alpha[:4] for b in alpha[:4]])
     P.blocks = blocks
     stats["sf_sensitive_probes"] = [mn_of[h] for h in sensitive]
@@ -229,6 +296,7 @@ def mode_unit(args):
     depth = 3 if full else 2
     seen = {G0: []}
     frontier = [(G0, [])]
+    state_fail, emitted = {}, set()
 
     def apply(t):
         if t[0] == "exec":
@@ -246,7 +314,7 @@ def mode_unit(args):
     def tname(t):
         return "exec:%s" % mn_of.get(t[1], "?") if t[0] == "exec" else t[0]
 
-    alpha_set = set(alpha) | set(sensitive)
+    alpha_set = set(alpha) | set(sensitive) | set(targeted)
     for dpt in range(depth):
         nxt = []
         # below the first level only the alphabet (and the non-exec transitions) is applied
@@ -260,9 +328,23 @@ def mode_unit(args):
                 stats["transitions"] += 1
                 G2 = snapshot(cpu, objs)
                 if G2 in seen:
+                    # a known global state reached by another transition: its probe failures are also this transition's
+                    if G2 != G and (G2, tname(t)) not in emitted and state_fail.get(G2):
+                        emitted.add((G2, tname(t)))
+                        h2 = hist + [list(t)]
+                        changed = diff(G, G2)
+                        glob = ",".join(sorted(set(c.split(".")[-1] for c in changed))) or "?"
+                        for (k, kind, detail) in state_fail[G2]:
+                            b = blocks[k]
+                            sig = (isa, mname, "after=" + tname(t), "global=" + glob, kind)
+                            fails.append(Failure(sig, "%s %s: after %s (which changed global state: %s) the probe block %s [%s] %s evaluates differently: %s" % (
+                                isa, mname, [tname(tuple(x)) for x in h2], changed[:4], b, " ; ".join(mn_of.get(h, "?") for h in b), kind, detail),
+                                {"isa": isa, "mode": mode, "history": h2, "probe": b, "kind": kind}, rank=len(h2)).to_json())
                     continue
                 h2 = hist + [list(t)]
                 seen[G2] = h2
+                emitted.add((G2, tname(t)))
+                state_fail[G2] = []
                 stats["states"] += 1
                 changed = diff(G, G2)
                 # invariant in the new global state: probes rebuilt now, and the old map objects
@@ -276,6 +358,7 @@ def mode_unit(args):
                         if r != base_res[k]:
                             glob = ",".join(sorted(set(c.split(".")[-1] for c in changed))) or "?"
                             sig = (isa, mname, "after=" + tname(t), "global=" + glob, kind)
+                            state_fail[G2].append((k, kind, first_diff(base_res[k], r)))
                             fails.append(Failure(sig, "%s %s: after %s (which changed global state: %s) the probe block %s [%s] %s evaluates differently: %s" % (
                                 isa, mname, [tname(tuple(x)) for x in h2], changed[:4], b, " ; ".join(mn_of.get(h, "?") for h in b), kind, first_diff(base_res[k], r)),
                                 {"isa": isa, "mode": mode, "history": h2, "probe": b, "kind": kind}, rank=len(h2)).to_json())
@@ -305,7 +388,8 @@ def run(tier, seed):
         per.append({"isa": isa, "mode": isas.mode_name(mode), "global_states": r["stats"].get("states"), "transitions": r["stats"].get("transitions"),
                     "globals_tracked": r["stats"].get("globals"), "closed_below_bound": r["stats"].get("closed"),
                     "state_changing_transitions": r["stats"].get("changing_transitions"),
-                    "sf_sensitive_probes": r["stats"].get("sf_sensitive_probes")})
+                    "sf_sensitive_probes": r["stats"].get("sf_sensitive_probes"),
+                    "targeted_probes": r["stats"].get("targeted_probes")})
         for f in r["fails"]:
             rep.add(Failure.from_json(f))
     rep.failures.sort(key=lambda f: (f.rank, f.sig))
